@@ -37,7 +37,7 @@ func c10(w *World) {
 		return
 	}
 	// ---- outbound history of mixed types ----
-	nOut := w.W.Draw(30)
+	nOut := w.W.Draw(w.Deep(30))
 	for i := 0; i < nOut && !sc.P.EOF; i++ {
 		switch w.W.Pick(3, 3, 2, 2, 2) {
 		case 0:
@@ -80,7 +80,7 @@ func c10(w *World) {
 		return m, last, true
 	}
 	sc.P.Take()
-	nReq := 1 + w.W.Draw(5)
+	nReq := 1 + w.W.Draw(w.Deep(5))
 	for r := 0; r < nReq && len(w.Viol) == 0 && !sc.P.EOF; r++ {
 		log, last, ok := logOf()
 		if !ok || !sc.checkFraming(sc.P.Msgs()) {
